@@ -32,6 +32,8 @@ structure Scen where
   shards : List ObsShard := []
   phase2 : Bool := false
   merged : Option (String × List String) := none
+  frames : Option Nat := none
+  nwireAll : Nat := 0
   quiet : Bool := false
   bad : Bool := false
   incomplete : Bool := false
@@ -49,7 +51,8 @@ def applyEv (s : Scen) (t : String) : Scen :=
     | some v => { s with layouts := s.layouts ++ [(v, parseKV kv)] }
     | none => { s with bad := true }
   | ["W", _, node, items, v] => match v.toNat? with
-    | some v => if s.phase2 then s else { s with wires := s.wires ++ [(node, splitItems items, v)], nwire := s.nwire + 1 }
+    | some v => if s.phase2 then { s with nwireAll := s.nwireAll + 1 }
+      else { s with wires := s.wires ++ [(node, splitItems items, v)], nwire := s.nwire + 1, nwireAll := s.nwireAll + 1 }
     | none => { s with bad := true }
   | ["A", _, _] => s
   | ["S", d, req, resp, err] =>
@@ -61,6 +64,7 @@ def applyEv (s : Scen) (t : String) : Scen :=
   | ["M", e, items] => match parseResp items with
     | some r => { s with merged := some (e, r.map (·.1)) }
     | none => { s with bad := true }
+  | ["N", n] => { s with frames := n.toNat? }
   | ["Q"] => { s with quiet := true }
   | ["ERRsetup"] => { s with incomplete := true }
   | _ => { s with bad := true }
@@ -92,7 +96,18 @@ def handle (line : String) : String :=
     let lay0 := match s.layouts.head? with | some (_, kv) => kv | none => []
     let lastLay := match s.layouts.getLast? with | some (_, kv) => kv | none => []
     -- layouts recorded before the end of phase 1 only matter for phase 1; unmappability is static in the scenarios
-    let mout := if g == "G:*" then "*" else canon (predictStatic s.dedup lay0 s.requested) ++ " " ++ " ".intercalate ets
+    -- the layout version in force when the last phase-1 attempt carrying the item reached a broker (0 if never sent)
+    let verOf (x : String) : Nat := match (s.wires.filter fun (_, items, _) => items.contains x).getLast? with
+      | some (_, _, v) => v
+      | none => 0
+    let static := (s.layouts.filter fun (v, _) => (s.wires.any fun (_, _, wv) => wv ≥ v) && v > 0).isEmpty
+    let allAnswered := shards.all fun sh => match sh.resp with | some r => r.all (fun (_, c) => !staleCode c) | none => true
+    let mout :=
+      if g == "G:*" then "*"
+      else if static then canon (predictStatic s.dedup lay0 s.requested) ++ " " ++ " ".intercalate ets
+      -- a shard answered NOT_LEADER / NOT_COORDINATOR that the client did not retry stays where it was sent: no prediction
+      else if allAnswered then canon (predictMoved s.dedup s.layouts verOf s.requested) ++ " " ++ " ".intercalate ets
+      else "*"
     let mappable := s.requested.filter fun x => match lastLay.find? (·.1 == x) with | some (_, d) => !isErrDest d | none => false
     let allMap := mappable.length == s.requested.length
     let rep := s.kind == "describelogdirs" || s.kind == "alterreplicalogdirs"
@@ -105,6 +120,9 @@ def handle (line : String) : String :=
     let v3 := match s.merged with
       | some (e, items) => if rep then none else specMerged fan allMap s.requested mappable shards e items
       | none => some "C23.no-merged-response"
+    let v3 := match v3 with
+      | some k => some k
+      | none => if s.frames != some s.nwireAll then some "C23.wire-frames-differ-from-broker-view" else none
     let verdict := match v1, v2, v3 with
       | some k, _, _ => "0:" ++ k
       | _, some k, _ => "0:" ++ k
